@@ -45,8 +45,17 @@ BuildCte ==
            ELSE /\ data' = d /\ pc' = "bound"
                 /\ UNCHANGED <<cs, work, res, hist>>
 
+\* FROM dual: exec has a branch of its own - the select list on the document as the one row, nothing else
+ExecDual ==
+    /\ pc = "bound" /\ Q.from.k = "dual"
+    /\ LET r == Project(Q, data, NoMarker(cs.doc))
+       IN  IF IsErr(r) THEN Fail("dual")
+           ELSE /\ pc' = "windowed" /\ work' = <<r>>
+                /\ hist' = Append(hist, [st |-> "dual", rows |-> <<r>>, err |-> FALSE])
+                /\ UNCHANGED <<cs, data, res>>
+
 BuildFrom ==
-    /\ pc = "bound"
+    /\ pc = "bound" /\ Q.from.k # "dual"
     /\ LET s == Source(Q.from, data)
        IN  IF IsErr(s) THEN Fail("from")
            ELSE /\ pc' = "built" /\ work' = s.e
@@ -89,7 +98,7 @@ Return ==
     /\ UNCHANGED <<cs, data, work>>
 
 EngineNext ==
-    \/ BuildCte \/ BuildFrom \/ BuildUnion
+    \/ BuildCte \/ BuildFrom \/ BuildUnion \/ ExecDual
     \/ ExecWhere \/ ExecGroupBy \/ ExecSelect \/ ExecDistinct \/ ExecOrderBy \/ ExecWindow
     \/ Return
 
@@ -105,7 +114,7 @@ Ok   == Done /\ ~IsErr(res)
 \* one semantics, two presentations: the stepwise pipeline agrees with RunQ
 \* (exactly when ORDER BY is canonical; up to what ORDER BY leaves open otherwise)
 StepwiseIsRunQ ==
-    Done => LET r == RunQ(cs.q, cs.doc)
+    Done => LET r == TopRun(cs.q, cs.doc)
             IN  IF IsErr(res) THEN IsErr(r)
                 ELSE IF NondetOrder THEN ~IsErr(r) /\ Len(r.e) = Len(res.e)
                 ELSE r = res
